@@ -248,6 +248,7 @@ package main
 //@   ensures [C10] online_not_raised: forall u types.Uid :: (u in t.perUser) && old(u in t.perUser) ==> t.perUser[u].online == old(t.perUser[u].online) || t.perUser[u].online == 0
 //@   ensures [C06] subscriber_stays: !unsub && old((uid in t.perUser) && !t.perUser[uid].isChan) ==> (uid in t.perUser)
 //@   ensures [C10] evicted_counts_no_sessions: (uid in t.perUser) ==> t.perUser[uid].online == 0
+//@   ensures [C02] names_kept: forall u types.Uid :: (u in t.perUser) && old(u in t.perUser) ==> t.perUser[u].topicName == old(t.perUser[u].topicName)
 // (C15: "disconnected when a party's session leaves" - being evicted is leaving. Known finding: evictUser does not look
 // at the call in progress. The solver does not decide this clause - quantified context, it times out - and the replay
 // harness shows the failure on the real code.)
@@ -492,6 +493,9 @@ package main
 //@ spec func canShare(t *Topic, u types.Uid) bool { return (u in t.perUser) && (effMode(t, u) & (types.ModeShare | types.ModeApprove | types.ModeOwner)) != 0 }
 //@ spec func isAdminOf(t *Topic, u types.Uid) bool { return (effMode(t, u) & (types.ModeOwner | types.ModeApprove)) != 0 }
 //@ func (t *Topic) anotherUserSub(sess *Session, asUid types.Uid, target types.Uid, asChan bool, pkt *ClientComMessage) (res *MsgAccessMode, err error)
+// (C02/C20: a p2p participant addresses the topic by the other participant's id, recorded with the participant's entry;
+// an invitation that revives the entry of a participant who had unsubscribed keeps that name)
+//@   ensures [C02] p2p_names_kept: t.cat == types.TopicCatP2P ==> (forall u types.Uid :: (u in t.perUser) && old(u in t.perUser) ==> t.perUser[u].topicName == old(t.perUser[u].topicName))
 //@   ensures [C13] failure_is_answered: err != nil ==> outTotal > old(outTotal)
 //@   requires t != nil && sess != nil && pkt != nil && pkt.Set != nil && pkt.Set.Sub != nil && asUid != target
 //@   requires [C07] p2p_wf: t.cat == types.TopicCatP2P ==> ((asUid in t.perUser) ==> (t.perUser[asUid].modeGiven & ^types.ModeCP2P) == 0)
